@@ -124,6 +124,13 @@ func C04RotAlphabet() []c04RotEl {
 			return c04RotEval("id", res) + " ; " + c04RotEval("descendants().reference", res) + " ; " + c04RotEval("descendants().value.count()", res) + " ; " + c04RotEval("descendants().where($this is Reference).count()", res)
 		})
 	}
+	group = "conversions-with-spelled-units"
+	// duration texts and unit arguments in several spellings: what a conversion accepts is not learnt from earlier texts
+	for _, src := range []string{"'72 hours'.toQuantity('Days')", "'3 Days'.toQuantity('hours')", "'2 HOURS'.toQuantity('minutes')", "'120 minutes'.toQuantity('HOURS')", "'1 Year'.toQuantity('months')", "'3 days'.toQuantity('hours')",
+		"'3 Days'.toQuantity()", "'3 Days'.convertsToQuantity('hours')", "(3 days).toQuantity('Days')", "'1 Week'.toQuantity('days') = 7 days"} {
+		src := src
+		one(src, func() string { return c04RotEval(src, pat()) })
+	}
 	c04RotCache = out
 	return out
 }
